@@ -3,6 +3,7 @@
 package main
 
 import (
+	"bytes"
 	"encoding/json"
 	"fmt"
 	"strconv"
@@ -52,11 +53,18 @@ func genFramingPlan(seed uint64, tier string) *Plan {
 		}
 		var stream []byte
 		var bounds []int
+		var prevMsg []byte
 		for i := 0; i < nm; i++ {
 			for k := g.pick2(0, 0, 0, 1, 2, 3); k > 0; k-- {
 				stream = append(stream, '\r', '\n') // keep-alive
 			}
 			m := genFramedMessage(g, small, tcpBackend)
+			if i > 0 && g.chance(15) {
+				// a request that repeats the method and the Via branch of the one before it (the same transaction sent
+				// again, e.g. a re-sent INVITE that has had no final answer yet)
+				m = sameTransactionAs(prevMsg, m)
+			}
+			prevMsg = m
 			stream = append(stream, m...)
 			bounds = append(bounds, len(stream))
 		}
@@ -100,8 +108,9 @@ func genFramingPlan(seed uint64, tier string) *Plan {
 		}
 		sortInts(op.Cuts)
 		if len(op.Cuts) > 0 && len(op.Cuts) <= 16 && g.chance(20) {
-			// a slow sender: seconds (or more than a minute) pass between segments, also in the middle of a message
-			op.I["gapMs"] = g.pick2(900, 6000, 31000, 70000)
+			// a slow sender: seconds (or more than a minute) pass between segments, also in the middle of a message;
+			// now and then the stream takes more than an hour in all
+			op.I["gapMs"] = g.pick2(900, 6000, 31000, 70000, 70000, 1300000)
 		}
 		p.Ops = append(p.Ops, op)
 	}
@@ -111,6 +120,33 @@ func genFramingPlan(seed uint64, tier string) *Plan {
 		c.Knobs = map[string]int{"answer": 1}
 	}
 	return p
+}
+
+// sameTransactionAs rewrites m so that it has prev's method (request line and CSeq) and top Via branch.
+func sameTransactionAs(prev, m []byte) []byte {
+	pm, _, err1 := sipwire.Parse(prev)
+	mm, _, err2 := sipwire.Parse(m)
+	if err1 != nil || err2 != nil || !pm.IsRequest || !mm.IsRequest {
+		return m
+	}
+	pv, e1 := pm.Vias()
+	mv, e2 := mm.Vias()
+	if e1 != nil || e2 != nil || len(pv) == 0 || len(mv) == 0 {
+		return m
+	}
+	pb, ok1 := pv[0].Param("branch")
+	mb, ok2 := mv[0].Param("branch")
+	if !ok1 || !ok2 || len(pb.V) != len(mb.V) || len(pm.Method) != len(mm.Method) {
+		return m // keep every length (Content-Length, cut positions) as it is
+	}
+	out := bytes.Replace(m, []byte("branch="+mb.V), []byte("branch="+pb.V), 1)
+	out = bytes.Replace(out, []byte(mm.Method+" "), []byte(pm.Method+" "), 1)
+	out = bytes.Replace(out, []byte(" "+mm.Method+"\r\n"), []byte(" "+pm.Method+"\r\n"), 1)
+	out = bytes.Replace(out, []byte(" "+mm.Method+"\n"), []byte(" "+pm.Method+"\n"), 1)
+	if _, _, err := sipwire.Parse(out); err != nil {
+		return m
+	}
+	return out
 }
 
 func sortInts(a []int) {
